@@ -34,9 +34,8 @@ def to_fraction(x, maxden=MAXDEN, tol=ABS_TOL):
     x = float(x)
     if not math.isfinite(x):
         raise MachineryError(f"non-finite value in exact probe: {x!r}")
-    scale = max(1.0, abs(x))
     fr = Fraction(x).limit_denominator(maxden)
-    if abs(float(fr) - x) <= tol * min(scale, 1e3) and abs(x) < 1e8:
+    if abs(float(fr) - x) <= tol and abs(x) < 1e6:
         return fr, True
     den = 10**6
     while den > 1:
